@@ -11,6 +11,8 @@ import (
 	"strings"
 	"time"
 
+	"github.com/NethermindEth/juno/blockchain"
+	"github.com/NethermindEth/juno/blockchain/networks"
 	"github.com/NethermindEth/juno/core"
 	"github.com/NethermindEth/juno/core/crypto"
 	"github.com/NethermindEth/juno/core/deprecatedstate"
@@ -32,6 +34,18 @@ type SBlock struct {
 	Storage  map[string]map[string]string `json:"storage,omitempty"`   // addr -> key -> value
 	Declared map[string]string            `json:"declared,omitempty"`  // sierra class hash -> compiled class hash
 	Migrated map[string]string            `json:"migrated,omitempty"`  // sierra class hash -> new compiled class hash
+	// updates applied on the SAME parent state before this block and then dropped (never part of the chain)
+	Before []Discarded `json:"before,omitempty"`
+}
+
+// Discarded is a state update that is executed by the real code on a batch that is never written:
+// Mode "close" = State.Update on a fresh batch that is Closed without Write, "simulate" =
+// Blockchain.Simulate, "badroot" = an Update whose NewRoot check fails (skipVerifyNewRoot=false).
+// Reopen = build new StateDB / trie database objects afterwards.
+type Discarded struct {
+	Diff   SBlock `json:"diff"`
+	Mode   string `json:"mode"`
+	Reopen bool   `json:"reopen,omitempty"`
 }
 
 type StateCase struct {
@@ -143,55 +157,64 @@ func pre014(version string) bool {
 
 // model script: one snew + one sblock line per block; storage writes in descending key order
 // (the order core/state applies them), everything else in sorted order.
-func stateModelLines(c *StateCase, id int, purge bool) []string {
+func stateModelLines(c *StateCase, id int, purge bool) (lines []string, blockIdx, discIdx []int) {
 	p := 0
 	if purge {
 		p = 1
 	}
-	lines := []string{fmt.Sprintf("snew %d %d", id, p)}
+	lines = []string{fmt.Sprintf("snew %d %d", id, p)}
 	for n := range c.Blocks {
 		b := &c.Blocks[n]
-		pre := 0
-		if pre014(b.Version) {
-			pre = 1
+		for di := range b.Before {
+			discIdx = append(discIdx, len(lines))
+			lines = append(lines, diffLine("sdiscard", id, &b.Before[di].Diff))
 		}
-		var items []string
-		add := func(tag string, m map[string]string) {
-			ks := make([]string, 0, len(m))
-			for k := range m {
-				ks = append(ks, k)
-			}
-			sort.Strings(ks)
-			for _, k := range ks {
-				items = append(items, tag+":"+k+":"+m[k])
-			}
-		}
-		add("D", b.Declared)
-		add("M", b.Migrated)
-		add("P", b.Deployed)
-		add("R", b.Replaced)
-		add("N", b.Nonces)
-		addrs := make([]string, 0, len(b.Storage))
-		for a := range b.Storage {
-			addrs = append(addrs, a)
-		}
-		sort.Strings(addrs)
-		for _, a := range addrs {
-			ks := make([]*big.Int, 0, len(b.Storage[a]))
-			for k := range b.Storage[a] {
-				n, _ := new(big.Int).SetString(k, 16)
-				ks = append(ks, n)
-			}
-			sort.Slice(ks, func(i, j int) bool { return ks[i].Cmp(ks[j]) > 0 })
-			var kvs []string
-			for _, k := range ks {
-				kvs = append(kvs, k.Text(16)+"="+b.Storage[a][k.Text(16)])
-			}
-			items = append(items, "S:"+a+":"+strings.Join(kvs, ","))
-		}
-		lines = append(lines, strings.TrimSpace(fmt.Sprintf("sblock %d %d %s", id, pre, strings.Join(items, " "))))
+		blockIdx = append(blockIdx, len(lines))
+		lines = append(lines, diffLine("sblock", id, b))
 	}
-	return lines
+	return lines, blockIdx, discIdx
+}
+
+func diffLine(op string, id int, b *SBlock) string {
+	pre := 0
+	if pre014(b.Version) {
+		pre = 1
+	}
+	var items []string
+	add := func(tag string, m map[string]string) {
+		ks := make([]string, 0, len(m))
+		for k := range m {
+			ks = append(ks, k)
+		}
+		sort.Strings(ks)
+		for _, k := range ks {
+			items = append(items, tag+":"+k+":"+m[k])
+		}
+	}
+	add("D", b.Declared)
+	add("M", b.Migrated)
+	add("P", b.Deployed)
+	add("R", b.Replaced)
+	add("N", b.Nonces)
+	addrs := make([]string, 0, len(b.Storage))
+	for a := range b.Storage {
+		addrs = append(addrs, a)
+	}
+	sort.Strings(addrs)
+	for _, a := range addrs {
+		ks := make([]*big.Int, 0, len(b.Storage[a]))
+		for k := range b.Storage[a] {
+			n, _ := new(big.Int).SetString(k, 16)
+			ks = append(ks, n)
+		}
+		sort.Slice(ks, func(i, j int) bool { return ks[i].Cmp(ks[j]) > 0 })
+		var kvs []string
+		for _, k := range ks {
+			kvs = append(kvs, k.Text(16)+"="+b.Storage[a][k.Text(16)])
+		}
+		items = append(items, "S:"+a+":"+strings.Join(kvs, ","))
+	}
+	return strings.TrimSpace(fmt.Sprintf("%s %d %d %s", op, id, pre, strings.Join(items, " ")))
 }
 
 // legacyPurges probes which treatment of an emptied system contract the deprecated backend of
@@ -255,9 +278,35 @@ func runNewState(c *StateCase) (tr trace) {
 		disk := memory.New()
 		sdb := state.NewStateDB(disk, triedb.New(disk, nil))
 		prev := felt.Zero
+		lastVer := ""
 		for n := range c.Blocks {
 			b := &c.Blocks[n]
 			hdr := &core.Header{Number: uint64(n), ProtocolVersion: b.Version}
+			for di := range b.Before {
+				d := &b.Before[di]
+				before := dumpDB(disk)
+				root, derr := discardNew(disk, sdb, &prev, uint64(n), d)
+				tr.DRoots = append(tr.DRoots, root)
+				if tr.Leak == "" {
+					if diff := diffDump(before, dumpDB(disk)); diff != "" {
+						tr.Leak = fmt.Sprintf("block %d, discarded update %d (%s): %s", n, di, d.Mode, diff)
+					} else if derr != nil {
+						tr.Leak = fmt.Sprintf("block %d, discarded update %d (%s) failed: %v", n, di, d.Mode, derr)
+					}
+				}
+				if d.Reopen {
+					sdb = state.NewStateDB(disk, triedb.New(disk, nil))
+				}
+				rd, err := state.NewStateReader(&prev, sdb)
+				if err != nil {
+					return err
+				}
+				if now, err := rd.Commitment(lastVer); err != nil || !now.Equal(&prev) {
+					if tr.Leak == "" {
+						tr.Leak = fmt.Sprintf("block %d, after discarded update %d (%s) the state reads root %s (err %v), accepted root is %s", n, di, d.Mode, now.String(), err, prev.String())
+					}
+				}
+			}
 			var newRoot felt.Felt
 			err := disk.Write(func(batch db.Batch) error {
 				st, err := state.New(&prev, sdb, batch)
@@ -292,6 +341,7 @@ func runNewState(c *StateCase) (tr trace) {
 			}
 			tr.Roots = append(tr.Roots, feltHex(&newRoot))
 			prev = newRoot
+			lastVer = b.Version
 		}
 		return nil
 	})
@@ -307,9 +357,30 @@ func runNewState(c *StateCase) (tr trace) {
 func runOldState(c *StateCase) (tr trace) {
 	err, panicked, _ := lib.Try(func() error {
 		disk := memory.New()
+		prev := felt.Zero
+		lastVer := ""
 		for n := range c.Blocks {
 			b := &c.Blocks[n]
 			hdr := &core.Header{Number: uint64(n), ProtocolVersion: b.Version}
+			for di := range b.Before {
+				d := &b.Before[di]
+				before := dumpDB(disk)
+				root, derr := discardOld(disk, &prev, uint64(n), d)
+				tr.DRoots = append(tr.DRoots, root)
+				if tr.Leak == "" {
+					if diff := diffDump(before, dumpDB(disk)); diff != "" {
+						tr.Leak = fmt.Sprintf("block %d, discarded update %d (%s): %s", n, di, d.Mode, diff)
+					} else if derr != nil {
+						tr.Leak = fmt.Sprintf("block %d, discarded update %d (%s) failed: %v", n, di, d.Mode, derr)
+					}
+				}
+				txn := disk.NewIndexedBatch()
+				now, err := deprecatedstate.New(txn).Commitment(lastVer)
+				_ = txn.Close()
+				if (err != nil || !now.Equal(&prev)) && tr.Leak == "" {
+					tr.Leak = fmt.Sprintf("block %d, after discarded update %d (%s) the state reads root %s (err %v), accepted root is %s", n, di, d.Mode, now.String(), err, prev.String())
+				}
+			}
 			var newRoot felt.Felt
 			err := disk.Update(func(txn db.IndexedBatch) error {
 				st := deprecatedstate.New(txn)
@@ -340,6 +411,8 @@ func runOldState(c *StateCase) (tr trace) {
 				return fmt.Errorf("block %d: root after reopen %s differs from root computed by Update %s", n, again.String(), newRoot.String())
 			}
 			tr.Roots = append(tr.Roots, feltHex(&newRoot))
+			prev = newRoot
+			lastVer = b.Version
 		}
 		return nil
 	})
@@ -350,6 +423,160 @@ func runOldState(c *StateCase) (tr trace) {
 		}
 	}
 	return tr
+}
+
+// ---- discarded updates -----------------------------------------------------------------------------
+
+func dumpDB(disk *memory.Database) map[string]string {
+	out := map[string]string{}
+	it, err := disk.NewIterator(nil, false)
+	if err != nil {
+		return out
+	}
+	defer it.Close()
+	for ok := it.First(); ok; ok = it.Next() {
+		v, _ := it.Value()
+		out[string(it.Key())] = string(v)
+	}
+	return out
+}
+
+func diffDump(a, b map[string]string) string {
+	keys := map[string]bool{}
+	for k := range a {
+		keys[k] = true
+	}
+	for k := range b {
+		keys[k] = true
+	}
+	var ks []string
+	for k := range keys {
+		if a[k] != b[k] || (len(a[k]) == 0 && len(b[k]) == 0 && hasKey(a, k) != hasKey(b, k)) {
+			ks = append(ks, k)
+		}
+	}
+	if len(ks) == 0 {
+		return ""
+	}
+	sort.Strings(ks)
+	k := ks[0]
+	st := "changed"
+	if !hasKey(a, k) {
+		st = "added"
+	} else if !hasKey(b, k) {
+		st = "removed"
+	}
+	return fmt.Sprintf("%d database keys differ after the update was dropped; first: key %x (bucket %d) %s", len(ks), k, k[0], st)
+}
+
+func hasKey(m map[string]string, k string) bool { _, ok := m[k]; return ok }
+
+func simBlock(num uint64, version string) *core.Block {
+	one := felt.FromUint64[felt.Felt](1)
+	f := func() *felt.Felt { x := one; return &x }
+	return &core.Block{Header: &core.Header{
+		ParentHash: f(), Number: num, SequencerAddress: f(), ProtocolVersion: version,
+		EventsBloom: core.EventsBloom(nil), L1GasPriceETH: f(), L1GasPriceSTRK: f(),
+		L1DataGasPrice: &core.GasPrice{PriceInWei: f(), PriceInFri: f()},
+		L2GasPrice:     &core.GasPrice{PriceInWei: f(), PriceInFri: f()},
+		Signatures:     [][]*felt.Felt{},
+	}, Transactions: []core.Transaction{}, Receipts: []*core.TransactionReceipt{}}
+}
+
+// discardNew runs one update on core/state through a path that never writes its batch; returns the
+// root the update computed ("" if the path yields none).
+func discardNew(disk *memory.Database, sdb *state.StateDB, prev *felt.Felt, num uint64, d *Discarded) (string, error) {
+	hdr := &core.Header{Number: num, ProtocolVersion: d.Diff.Version}
+	switch d.Mode {
+	case "simulate":
+		bc := blockchain.New(disk, &networks.Mainnet, blockchain.WithNewState(true))
+		su, classes := toUpdate(&d.Diff, prev)
+		blk := simBlock(num, d.Diff.Version)
+		if _, err := bc.Simulate(blk, su, classes, nil); err != nil {
+			return "", err
+		}
+		return feltHex(blk.GlobalStateRoot), nil
+	case "badroot":
+		err := disk.Write(func(batch db.Batch) error {
+			st, err := state.New(prev, sdb, batch)
+			if err != nil {
+				return err
+			}
+			old, err := st.Commitment(d.Diff.Version)
+			if err != nil {
+				return err
+			}
+			su, classes := toUpdate(&d.Diff, &old)
+			bad := felt.FromUint64[felt.Felt](0xdead)
+			su.NewRoot = &bad
+			return st.Update(hdr, su, classes, false)
+		})
+		if err == nil {
+			return "", fmt.Errorf("an update with a wrong NewRoot was accepted")
+		}
+		return "", nil
+	default: // close
+		batch := disk.NewBatch()
+		defer batch.Close()
+		st, err := state.New(prev, sdb, batch)
+		if err != nil {
+			return "", err
+		}
+		old, err := st.Commitment(d.Diff.Version)
+		if err != nil {
+			return "", err
+		}
+		su, classes := toUpdate(&d.Diff, &old)
+		if err := st.Update(hdr, su, classes, true); err != nil {
+			return "", err
+		}
+		root, err := st.Commitment(d.Diff.Version)
+		return feltHex(&root), err
+	}
+}
+
+func discardOld(disk *memory.Database, prev *felt.Felt, num uint64, d *Discarded) (string, error) {
+	hdr := &core.Header{Number: num, ProtocolVersion: d.Diff.Version}
+	switch d.Mode {
+	case "simulate":
+		bc := blockchain.New(disk, &networks.Mainnet, blockchain.WithNewState(false))
+		su, classes := toUpdate(&d.Diff, prev)
+		blk := simBlock(num, d.Diff.Version)
+		if _, err := bc.Simulate(blk, su, classes, nil); err != nil {
+			return "", err
+		}
+		return feltHex(blk.GlobalStateRoot), nil
+	case "badroot":
+		err := disk.Update(func(txn db.IndexedBatch) error {
+			st := deprecatedstate.New(txn)
+			old, err := st.Commitment(d.Diff.Version)
+			if err != nil {
+				return err
+			}
+			su, classes := toUpdate(&d.Diff, &old)
+			bad := felt.FromUint64[felt.Felt](0xdead)
+			su.NewRoot = &bad
+			return st.Update(hdr, su, classes, false)
+		})
+		if err == nil {
+			return "", fmt.Errorf("an update with a wrong NewRoot was accepted")
+		}
+		return "", nil
+	default:
+		txn := disk.NewIndexedBatch()
+		defer txn.Close()
+		st := deprecatedstate.New(txn)
+		old, err := st.Commitment(d.Diff.Version)
+		if err != nil {
+			return "", err
+		}
+		su, classes := toUpdate(&d.Diff, &old)
+		if err := st.Update(hdr, su, classes, true); err != nil {
+			return "", err
+		}
+		root, err := st.Commitment(d.Diff.Version)
+		return feltHex(&root), err
+	}
 }
 
 // expected roots after every block; alt = variant where an emptied contract keeps its leaf
@@ -369,20 +596,95 @@ func specStateTrace(c *StateCase) (want, alt []string) {
 
 var versions = []string{"0.13.1", "0.13.2", "0.13.6", "0.14.0", "0.14.1"}
 
-func genStateCase(r *lib.RNG, nBlocks int) *StateCase {
-	c := &StateCase{}
-	// address / key universe with shared prefixes
-	addrPool := []string{"1", "2"}
+type statePools struct {
+	addrs, keys, classes []string
+}
+
+func genPools(r *lib.RNG) *statePools {
+	p := &statePools{addrs: []string{"1", "2"}}
 	for _, k := range genKeyPool(r, 251, r.Range(2, 5)) {
 		if k.Sign() != 0 && k.Cmp(big.NewInt(2)) > 0 {
-			addrPool = append(addrPool, k.Text(16))
+			p.addrs = append(p.addrs, k.Text(16))
 		}
 	}
-	keyPool := []string{}
 	for _, k := range genKeyPool(r, 251, r.Range(2, 6)) {
-		keyPool = append(keyPool, k.Text(16))
+		p.keys = append(p.keys, k.Text(16))
 	}
-	classPool := []string{"c1a55", "c1a56", randBits(r, 250).Text(16)}
+	p.classes = []string{"c1a55", "c1a56", randBits(r, 250).Text(16)}
+	return p
+}
+
+// genBlock generates one diff that is valid on top of the abstract state a (a is not modified).
+func genBlock(r *lib.RNG, a *absState, p *statePools, ver string) SBlock {
+	b := SBlock{Version: ver}
+	for _, addr := range p.addrs {
+		if _, ok := a.contracts[addr]; !ok && !isSystem(addr) && r.Chance(1, 2) {
+			if b.Deployed == nil {
+				b.Deployed = map[string]string{}
+			}
+			b.Deployed[addr] = lib.Pick(r, p.classes)
+		}
+	}
+	deployedNow := func(addr string) bool {
+		if _, ok := a.contracts[addr]; ok {
+			return true
+		}
+		_, ok := b.Deployed[addr]
+		return ok
+	}
+	for _, addr := range p.addrs {
+		if !deployedNow(addr) && !isSystem(addr) {
+			continue
+		}
+		if !isSystem(addr) && deployedNow(addr) {
+			if _, justNow := b.Deployed[addr]; !justNow && r.Chance(1, 6) {
+				if b.Replaced == nil {
+					b.Replaced = map[string]string{}
+				}
+				b.Replaced[addr] = lib.Pick(r, p.classes)
+			}
+			if r.Chance(1, 3) {
+				if b.Nonces == nil {
+					b.Nonces = map[string]string{}
+				}
+				b.Nonces[addr] = lib.Pick(r, []string{"0", "1", "2", "ff"})
+			}
+		}
+		if r.Chance(2, 3) {
+			st := map[string]string{}
+			for i, m := 0, r.Range(1, 4); i < m; i++ {
+				k := lib.Pick(r, p.keys)
+				v := genVal(r)
+				// bias towards zeroing slots that are set, so that storages become empty again
+				if c0, ok := a.contracts[addr]; ok {
+					if _, set := c0.storage[k]; set && r.Chance(1, 2) {
+						v = "0"
+					}
+				}
+				st[k] = v
+			}
+			if b.Storage == nil {
+				b.Storage = map[string]map[string]string{}
+			}
+			b.Storage[addr] = st
+		}
+	}
+	if r.Chance(1, 3) {
+		ch := lib.Pick(r, p.classes)
+		if _, ok := a.classes[ch]; !ok {
+			b.Declared = map[string]string{ch: lib.Pick(r, []string{"ca5a1", "ca5a2"})}
+		} else if r.Chance(1, 2) {
+			b.Migrated = map[string]string{ch: lib.Pick(r, []string{"ca5b1", "ca5b2"})}
+		}
+	}
+	return b
+}
+
+var discardModes = []string{"close", "close", "simulate", "simulate", "badroot"}
+
+func genStateCase(r *lib.RNG, nBlocks int) *StateCase {
+	c := &StateCase{}
+	p := genPools(r)
 	a := newAbs()
 	// one protocol-version regime per case, sometimes switching once
 	ver := lib.Pick(r, versions)
@@ -390,72 +692,20 @@ func genStateCase(r *lib.RNG, nBlocks int) *StateCase {
 	if r.Chance(1, 3) {
 		switchAt = r.Intn(nBlocks)
 	}
+	withDiscards := r.Chance(1, 2)
 	for n := 0; n < nBlocks; n++ {
 		if n == switchAt {
 			ver = lib.Pick(r, versions)
 		}
-		b := SBlock{Version: ver}
-		// deploy
-		for _, addr := range addrPool {
-			if _, ok := a.contracts[addr]; !ok && !isSystem(addr) && r.Chance(1, 2) {
-				if b.Deployed == nil {
-					b.Deployed = map[string]string{}
-				}
-				b.Deployed[addr] = lib.Pick(r, classPool)
+		var before []Discarded
+		if withDiscards && r.Chance(2, 3) {
+			// updates on the same parent that are executed and dropped (never part of the chain)
+			for i, m := 0, r.Range(1, 2); i < m; i++ {
+				before = append(before, Discarded{Diff: genBlock(r, a, p, ver), Mode: lib.Pick(r, discardModes), Reopen: r.Bool()})
 			}
 		}
-		deployedNow := func(addr string) bool {
-			if _, ok := a.contracts[addr]; ok {
-				return true
-			}
-			_, ok := b.Deployed[addr]
-			return ok
-		}
-		for _, addr := range addrPool {
-			if !deployedNow(addr) && !isSystem(addr) {
-				continue
-			}
-			if !isSystem(addr) && deployedNow(addr) {
-				if _, justNow := b.Deployed[addr]; !justNow && r.Chance(1, 6) {
-					if b.Replaced == nil {
-						b.Replaced = map[string]string{}
-					}
-					b.Replaced[addr] = lib.Pick(r, classPool)
-				}
-				if r.Chance(1, 3) {
-					if b.Nonces == nil {
-						b.Nonces = map[string]string{}
-					}
-					b.Nonces[addr] = lib.Pick(r, []string{"0", "1", "2", "ff"})
-				}
-			}
-			if r.Chance(2, 3) {
-				st := map[string]string{}
-				for i, m := 0, r.Range(1, 4); i < m; i++ {
-					k := lib.Pick(r, keyPool)
-					v := genVal(r)
-					// bias towards zeroing slots that are set, so that storages become empty again
-					if c0, ok := a.contracts[addr]; ok {
-						if _, set := c0.storage[k]; set && r.Chance(1, 2) {
-							v = "0"
-						}
-					}
-					st[k] = v
-				}
-				if b.Storage == nil {
-					b.Storage = map[string]map[string]string{}
-				}
-				b.Storage[addr] = st
-			}
-		}
-		if r.Chance(1, 3) {
-			ch := lib.Pick(r, classPool)
-			if _, ok := a.classes[ch]; !ok {
-				b.Declared = map[string]string{ch: lib.Pick(r, []string{"ca5a1", "ca5a2"})}
-			} else if r.Chance(1, 2) {
-				b.Migrated = map[string]string{ch: lib.Pick(r, []string{"ca5b1", "ca5b2"})}
-			}
-		}
+		b := genBlock(r, a, p, ver)
+		b.Before = before
 		a.apply(&b)
 		c.Blocks = append(c.Blocks, b)
 	}
@@ -509,6 +759,20 @@ func directedStateCases() []*StateCase {
 			{Version: ver, Storage: map[string]map[string]string{"1": {"7": "0"}}},
 			{Version: ver, Deployed: map[string]string{"abc": "c1a55"}},
 		}})
+		// a dropped update writes the storage of an existing contract; the next accepted block touches it
+		for _, mode := range []string{"close", "simulate", "badroot"} {
+			for _, reopen := range []bool{false, true} {
+				dropped := SBlock{Version: ver, Storage: map[string]map[string]string{"abc": {"1": "9", "5": "7"}, "1": {"7": "3"}},
+					Nonces: map[string]string{"abc": "5"}, Declared: map[string]string{"c1a56": "ca5a2"}}
+				out = append(out, &StateCase{Blocks: []SBlock{
+					{Version: ver, Deployed: map[string]string{"abc": "c1a55"}, Storage: map[string]map[string]string{"abc": {"1": "1", "2": "2"}}},
+					{Version: ver, Storage: map[string]map[string]string{"abc": {"3": "4"}}, Before: []Discarded{{Diff: dropped, Mode: mode, Reopen: reopen}}},
+					{Version: ver, Storage: map[string]map[string]string{"abc": {"1": "0"}},
+						Before: []Discarded{{Diff: SBlock{Version: ver, Deployed: map[string]string{"def": "c1a55"}, Storage: map[string]map[string]string{"def": {"1": "1"}}}, Mode: mode, Reopen: reopen}}},
+					{Version: ver, Deployed: map[string]string{"def": "c1a56"}, Storage: map[string]map[string]string{"def": {"2": "2"}}},
+				}})
+			}
+		}
 		// empty first block, class only, contract only
 		out = append(out, &StateCase{Blocks: []SBlock{{Version: ver}, {Version: ver, Declared: map[string]string{"c1a55": "ca5a1"}}}})
 		out = append(out, &StateCase{Blocks: []SBlock{{Version: ver, Deployed: map[string]string{"abc": "c1a55"}}}})
@@ -530,6 +794,15 @@ func shrinkState(c *StateCase, fails func(*StateCase) bool) *StateCase {
 			break
 		}
 		cur = cand
+	}
+	for bi := range cur.Blocks {
+		for di := len(cur.Blocks[bi].Before) - 1; di >= 0; di-- {
+			cand := deepCopyState(cur)
+			cand.Blocks[bi].Before = append(cand.Blocks[bi].Before[:di], cand.Blocks[bi].Before[di+1:]...)
+			if fails(cand) {
+				cur = cand
+			}
+		}
 	}
 	for changed := true; changed; {
 		changed = false
@@ -563,7 +836,14 @@ var legacyPurgeVariant bool
 
 func checkStateCases(f lib.Flags, res *lib.Result, drv *lib.Driver, cases []*StateCase, family string) {
 	t0 := time.Now()
-	defer func() { res.HitN("ms:"+family, int(time.Since(t0).Milliseconds())) }()
+	defer func() {
+		res.HitN("ms:"+family, int(time.Since(t0).Milliseconds()))
+		// checkpoint: a panic inside a goroutine of the code under test (parallel hasher / collector)
+		// cannot be recovered and kills the process; what was found so far stays on disk
+		if f.Out != "" {
+			_ = res.Write(f.Out)
+		}
+	}()
 	type outcome struct {
 		nw, old   trace
 		want, alt []string
@@ -583,13 +863,17 @@ func checkStateCases(f lib.Flags, res *lib.Result, drv *lib.Driver, cases []*Sta
 	// model answers (new backend: purge; deprecated backend: as probed on the tree under test)
 	var answers [2][]string
 	var offs []int
+	bIdx := make([][]int, len(cases))
+	dIdx := make([][]int, len(cases))
 	if drv != nil {
 		for v, purge := range []bool{true, legacyPurgeVariant} {
 			var all []string
 			offs = offs[:0]
-			for _, c := range cases {
+			for i, c := range cases {
 				offs = append(offs, len(all))
-				all = append(all, stateModelLines(c, 0, purge)...)
+				var ls []string
+				ls, bIdx[i], dIdx[i] = stateModelLines(c, 0, purge)
+				all = append(all, ls...)
 			}
 			a, err := drv.AskAll(all)
 			if err != nil {
@@ -599,12 +883,26 @@ func checkStateCases(f lib.Flags, res *lib.Result, drv *lib.Driver, cases []*Sta
 			answers[v] = a
 		}
 	}
-	cmp := func(sig string, c *StateCase, ans []string, off int, impl trace) {
+	cmp := func(sig string, ci int, c *StateCase, ans []string, off int, impl trace) {
 		if ans == nil || impl.Err != "" {
 			return
 		}
+		// roots computed by the dropped updates (where the path yields one)
+		for j, idx := range dIdx[ci] {
+			want := at(impl.DRoots, j)
+			if want == "" || want == "<missing>" {
+				continue
+			}
+			a := ans[off+idx]
+			res.Compared(1)
+			v, err := evalTerm(a)
+			if err != nil || feltHex(&v) != want {
+				res.Mismatch(lib.Mismatch{Sig: sig + "-of-dropped-update", Input: c, Model: clip(a), Impl: want})
+				return
+			}
+		}
 		for n := range c.Blocks {
-			a := ans[off+1+n]
+			a := ans[off+bIdx[ci][n]]
 			res.Compared(1)
 			if a == "rejected" {
 				res.Mismatch(lib.Mismatch{Sig: sig + "-model-rejects", Input: c, Model: a, Impl: at(impl.Roots, n)})
@@ -620,8 +918,8 @@ func checkStateCases(f lib.Flags, res *lib.Result, drv *lib.Driver, cases []*Sta
 	for i, c := range cases {
 		o := outs[i]
 		if drv != nil {
-			cmp("state-root", c, answers[0], offs[i], o.nw)
-			cmp("deprecatedstate-root", c, answers[1], offs[i], o.old)
+			cmp("state-root", i, c, answers[0], offs[i], o.nw)
+			cmp("deprecatedstate-root", i, c, answers[1], offs[i], o.old)
 		}
 		key, _ := json.Marshal(c)
 		res.Case(string(key), len(c.Blocks) >= 2)
@@ -631,6 +929,21 @@ func checkStateCases(f lib.Flags, res *lib.Result, drv *lib.Driver, cases []*Sta
 		rep := func(fails func(*StateCase) bool) any {
 			b, _ := json.Marshal(shrinkState(c, fails))
 			return replayBody{Kind: "state", State: b}
+		}
+		// dropped updates must leave no trace
+		if o.nw.Leak != "" {
+			violateOnce(res, "state-dropped-update-leaves-trace-in-database", func() lib.Violation {
+				return lib.Violation{Sig: "state-dropped-update-leaves-trace-in-database",
+					What:   "core/state: an update executed on a batch that was never written changed the database / the readable state: " + o.nw.Leak,
+					Replay: rep(func(c *StateCase) bool { return runNewState(c).Leak != "" })}
+			})
+		}
+		if o.old.Leak != "" {
+			violateOnce(res, "deprecatedstate-dropped-update-leaves-trace-in-database", func() lib.Violation {
+				return lib.Violation{Sig: "deprecatedstate-dropped-update-leaves-trace-in-database",
+					What:   "core/deprecatedstate: an update executed on a transaction that was never written changed the database / the readable state: " + o.old.Leak,
+					Replay: rep(func(c *StateCase) bool { return runOldState(c).Leak != "" })}
+			})
 		}
 		// new backend
 		if o.nw.Err != "" {
@@ -678,6 +991,18 @@ func classifyState(res *lib.Result, c *StateCase) {
 	for n := range c.Blocks {
 		b := &c.Blocks[n]
 		res.Hit("state:block-version=" + b.Version)
+		for _, d := range b.Before {
+			res.Hit("state:dropped-update:" + d.Mode)
+			if d.Reopen {
+				res.Hit("state:dropped-update:then-reopen")
+			}
+			for addr := range d.Diff.Storage {
+				if _, ok := a.contracts[addr]; ok {
+					res.Hit("state:dropped-update-writes-existing-contract-storage")
+					break
+				}
+			}
+		}
 		if len(b.Deployed) > 0 {
 			res.Hit("state:deploy")
 		}
